@@ -278,7 +278,9 @@ impl<'a> World<'a> {
         }
         if let Some((count0, hint0, free0)) = v.info_at_mount {
             let n = v.geom.clusters + 2;
-            let wrong = (count0 != 0xFFFF_FFFF && count0 != free0) || (hint0 != 0xFFFF_FFFF && !(hint0 >= 2 && hint0 < n));
+            // a record is "wrong" when its count is not the truth, or its hint is out of range or names a cluster that
+            // was in use (with a fully truthful record the failure is C05's alone)
+            let wrong = (count0 != 0xFFFF_FFFF && count0 != free0) || (hint0 != 0xFFFF_FFFF && (!(hint0 >= 2 && hint0 < n) || !v.hint_named_free_at_mount));
             if wrong {
                 self.violate("C16", "operation-fails-on-wrong-fsinfo", &format!("{}:{}", opk, gotn), format!("FSInfo at mount said count {} hint {} (truth: {} free of {} clusters); {} then failed with {} although space was available", count0, hint0, free0, v.geom.clusters, opk, gotn));
             }
